@@ -1,7 +1,9 @@
 ------------------------------ MODULE GridCases ------------------------------
 EXTENDS Integers, Sequences, FiniteSets
 (* keys: kind 1 = rate a of node 1, 2 = constant c of all nodes, 3 = weight of edge 1, 4 = rate a of nodes 1 and 2,
-   5 = delay of edge 1 (|value| steps; model 3 = model 1 with a delayed first edge): <<3, 5>> updates two attributes of one edge *)
+   5 = delay of edge 1 (|value| steps; model 3 = model 1 with a delayed first edge): <<3, 5>> updates two attributes of one edge,
+   6 = rate a of node 2 (model 4: three identical nodes built from ONE NodeTemplate object): <<1, 6>> gives two nodes that share
+   a template different values in one row *)
 KeySets == {<<1>>, <<3>>, <<2>>, <<1, 3>>, <<4, 3>>, <<2, 1>>}
 ValLists(n) == IF n = 2 THEN {<<-2, -4>>, <<2, 6>>} ELSE {<<-2, -4, -6>>, <<2, 6, 4>>}
 Perm3 == {<<2, 0, 1>>, <<1, 2, 0>>}
@@ -15,6 +17,9 @@ GridCases(models) ==
   \cup \* tables with re-ordered integer row labels
   { [vals |-> [k \in 1..Len(ks) |-> v], permute |-> FALSE, index |-> ix, keys |-> ks, model |-> m, vec |-> TRUE, inp |-> FALSE] :
       ks \in KeySets, v \in ValLists(3), ix \in Perm3, m \in models }
+SharedTemplateCases ==
+  { [vals |-> <<v1, v2>>, permute |-> pm, index |-> <<>>, keys |-> ks, model |-> 4, vec |-> ve, inp |-> FALSE] :
+      ks \in {<<1, 6>>, <<6, 1>>, <<6, 4>>}, v1 \in {<<-2, -4, -6>>}, v2 \in {<<-8, -10, -12>>}, pm \in {FALSE}, ve \in BOOLEAN }
 EdgeAttrCases ==
   { [vals |-> [k \in 1..Len(ks) |-> v], permute |-> FALSE, index |-> <<>>, keys |-> ks, model |-> 3, vec |-> ve, inp |-> FALSE] :
       ks \in {<<5>>, <<3, 5>>, <<5, 3>>}, v \in ValLists(3), ve \in BOOLEAN }
